@@ -9,7 +9,7 @@ from OpenSSL import SSL
 
 def pre_props():
     """called by check.py before Props/C20.v is compiled: regenerate and compile Gen/TlsConfigGen.v"""
-    rc = subprocess.run(["python3", os.path.join(VERIF, "translate", "tlsconf.py")], capture_output=True, text=True)
+    rc = subprocess.run(["python3", os.path.join(VERIF, "translate", "tlsconf.py"), os.path.join(VERIF, "coq", "Gen", "TlsConfigGen.v")], capture_output=True, text=True)
     if rc.returncode != 0:
         return False, "translator refused the source: " + rc.stdout[-500:] + rc.stderr[-500:]
     rc = subprocess.run("timeout 300 coqc -Q . NV Gen/TlsConfigGen.v", shell=True, cwd=os.path.join(VERIF, "coq"), capture_output=True, text=True)
